@@ -44,12 +44,27 @@ def check(ctx):
     if crash:
         vf.report_crash(ctx, "S-connp", cases, crash)
     known = {k["id"]: k for k in vf.known_for(PROP)}
+    # the computable premise of the history-level theorem C05_lifecycle (extracted run_lcb), per history: the theorem says the MODEL's log is accepted
+    # whenever it holds, so a rejection of the LIBRARY's log inside the premise is never a listed finding -- either the library broke or the model no
+    # longer describes it
+    mexe = vf.build_model_driver(ctx)
+    lcb_lines, lcbad = vf.run_sharded(ctx, mexe, ["connp_lcb\t" + c.split("\t", 1)[1] for c in cases], "S-connp-lcb")
+    if lcbad is not None:
+        raise vf.CheckError("model driver failed on connp_lcb: %s" % (lcbad,))
+    inside = [l.strip() == "lcb=1" for l in lcb_lines]
+    ctx.cov["suites"]["S-connp"]["histories_inside_lifecycle_premise"] = sum(inside)
+    ctx.cov["suites"]["S-connp"]["histories_outside_lifecycle_premise"] = len(inside) - sum(inside)
     hits = {}
     bad = []
+    rejected_inside = 0
     for i, v in enumerate(verdicts):
         if v is None or v.get("C05", True):
             continue
         ids = classify(cases[i], v.get("rej", []), traces[i] if i < len(traces) else 0)
+        if i < len(inside) and inside[i]:
+            rejected_inside += 1
+            bad.append(i)
+            continue
         if ids and all(x in known for x in ids):
             for x in ids:
                 hits.setdefault(x, []).append(i)
@@ -105,7 +120,7 @@ def check(ctx):
     pm = [sconnp.project(o, PROP) for o in model]
     mm = [i for i in range(min(len(pi), len(pm))) if pi[i] != pm[i]] if not crash else []
     ctx.cov["suites"]["S-connp"]["mismatches"] = len(mm)
-    ctx.cov["suites"]["S-connp"]["oracle_rejections"] = {"unlisted": len(bad), **{k: len(v) for k, v in hits.items()}}
+    ctx.cov["suites"]["S-connp"]["oracle_rejections"] = {"unlisted": len(bad), "inside_the_premise_of_C05_lifecycle": rejected_inside, **{k: len(v) for k, v in hits.items()}}
     if mm and not bad:
         i = mm[0]
         vf.violation(ctx, "corr-%d" % i, {"kind": "correspondence-broken", "suite": "S-connp", "case": cases[i], "projection": "callback sequence (hook, transaction) per call + final progress values",
